@@ -10,7 +10,16 @@
    dereference nil, index out of range or fail an unchecked type assertion returns [None] (= Panic).
    Proof-free. *)
 From GVL Require Import NList Wire.
+From GVG Require Import Consts.
 Open Scope N_scope.
+
+(* status codes: pkg/base, regenerated from the Go source on every run *)
+Notation st200 := shost_status_ok.
+Notation st400 := shost_status_bad_request.
+Notation st404 := shost_status_not_found.
+Notation st454 := shost_status_session_not_found.
+Notation st461 := shost_status_unsupported_transport.
+Notation st501 := shost_status_not_implemented.
 
 (* ------------------------------------------------------------------ configuration *)
 Record cfg := mkCfg {
@@ -220,13 +229,13 @@ Inductive setup_decision :=
 (* server_session.go:822-963, up to the call of the OnSetup handler *)
 Definition validate_setup (g : cfg) (c : conn) (ss : session) (r : req) : setup_decision :=
   match s_state ss with
-  | SPlay | SRecord => SetupReject 400 true                                   (* checkState *)
+  | SPlay | SRecord => SetupReject st400 true                                   (* checkState *)
   | _ =>
   match r_transports r with
-  | None => SetupReject 400 true                                              (* ErrServerTransportHeaderInvalid *)
+  | None => SetupReject st400 true                                              (* ErrServerTransportHeaderInvalid *)
   | Some ts =>
   match pick_first g c ts with
-  | None => SetupReject 461 false                                             (* StatusUnsupportedTransport *)
+  | None => SetupReject st461 false                                             (* StatusUnsupportedTransport *)
   | Some th =>
   let playing := match s_state ss with SInitial | SPrePlay => true | _ => false end in
   let pathres :=
@@ -240,12 +249,12 @@ Definition validate_setup (g : cfg) (c : conn) (ss : session) (r : req) : setup_
       end
     else Some (s_path ss, TrBad) in
   match pathres with
-  | None => SetupReject 400 true
+  | None => SetupReject st400 true
   | Some (path, trk) =>
   let p := proto_of th in
-  if t_secure th && negb (r_keymgmt r) then SetupReject 400 true              (* ErrServerInvalidKeyMgmtHeader *)
+  if t_secure th && negb (r_keymgmt r) then SetupReject st400 true              (* ErrServerInvalidKeyMgmtHeader *)
   else if match s_tr ss with Some old => negb (tr_eqb old (p, t_secure th)) | None => false end
-  then SetupReject 400 true                                                   (* ErrServerMediasDifferentTransports *)
+  then SetupReject st400 true                                                   (* ErrServerMediasDifferentTransports *)
   else if match p with
           | SPUDP => match t_cports th with None => true | Some _ => false end          (* NoClientPorts *)
           | SPTCP => match t_inter th with
@@ -254,18 +263,18 @@ Definition validate_setup (g : cfg) (c : conn) (ss : session) (r : req) : setup_
                      end
           | SPMcast => false
           end
-  then SetupReject 400 true
+  then SetupReject st400 true
   else if playing then
     match t_mode th with
-    | Some TMRecord => SetupReject 400 true                                   (* ErrServerTransportHeaderInvalidMode *)
+    | Some TMRecord => SetupReject st400 true                                   (* ErrServerTransportHeaderInvalidMode *)
     | _ => SetupAccept th p path trk
     end
   else
     match p with
-    | SPMcast => SetupReject 461 false
+    | SPMcast => SetupReject st461 false
     | _ => match t_mode th with
            | Some TMRecord => SetupAccept th p path trk
-           | _ => SetupReject 400 true
+           | _ => SetupReject st400 true
            end
     end
   end end end end.
@@ -465,7 +474,7 @@ Definition sess_setup (g : cfg) (s : server) (c : conn) (ss : session) (r : req)
   | SetupAccept th p path trk =>
       if negb (h_setup g) then None else                                   (* Handler.(ServerHandlerOnSetup) *)
       let playing := match s_state ss with SInitial | SPrePlay => true | _ => false end in
-      if negb (if playing then r_verdict_play r else r_verdict r) then Some (s, ss, 404, RNone) else
+      if negb (if playing then r_verdict_play r else r_verdict r) then Some (s, ss, st404, RNone) else
       match (if playing then media_by_track (c_nmedias g) trk
              else match s_announced ss with                                 (* ss.announcedDesc.Medias *)
                   | None => None
@@ -475,15 +484,15 @@ Definition sess_setup (g : cfg) (s : server) (c : conn) (ss : session) (r : req)
                                     end)
                   end) with
       | None => None
-      | Some None => Some (s, ss, 400, RErr)                                (* ErrServerMediaNotFound *)
+      | Some None => Some (s, ss, st400, RErr)                                (* ErrServerMediaNotFound *)
       | Some (Some k) =>
-          if existsb (fun m => m_idx m =? k) (s_medias ss) then Some (s, ss, 400, RErr)   (* AlreadySetup *)
+          if existsb (fun m => m_idx m =? k) (s_medias ss) then Some (s, ss, st400, RErr)   (* AlreadySetup *)
           else
           let ss1 := mkSess (s_id ss) (s_ip ss) (s_conns ss) (s_state ss) (Some (p, t_secure th)) (s_medias ss)
                             (s_path ss) (s_stream ss) (s_announced ss) (s_tcpconn ss) (s_writer ss) (s_timer ss) in
           match (if sstate_eqb (s_state ss) SInitial then reader_add s ss1 (t_cports th) else Some (inl s)) with
           | None => None
-          | Some (inr _) => Some (s, ss, 400, RErr)             (* setuppedTransport = nil again; ports in use *)
+          | Some (inr _) => Some (s, ss, st400, RErr)             (* setuppedTransport = nil again; ports in use *)
           | Some (inl s1) =>
               match (match p with
                      | SPUDP =>
@@ -510,7 +519,7 @@ Definition sess_setup (g : cfg) (s : server) (c : conn) (ss : session) (r : req)
                     else mkSess (s_id ss) (s_ip ss) (s_conns ss) (s_state ss) (Some (p, t_secure th))
                                 (s_medias ss ++ [sm]) (s_path ss) (s_stream ss) (s_announced ss) (s_tcpconn ss)
                                 (s_writer ss) (s_timer ss) in
-                  Some (s1, ss2, 200, RNone)
+                  Some (s1, ss2, st200, RNone)
               end
           end
       end
@@ -518,19 +527,19 @@ Definition sess_setup (g : cfg) (s : server) (c : conn) (ss : session) (r : req)
 
 Definition sess_announce (g : cfg) (s : server) (ss : session) (r : req) : sres :=
   match validate_announce ss r with
-  | None => Some (s, ss, 400, RErr)
+  | None => Some (s, ss, st400, RErr)
   | Some n =>
       if negb (h_announce g) then None else                                (* Handler.(ServerHandlerOnAnnounce) *)
       if r_verdict r
       then Some (s, mkSess (s_id ss) (s_ip ss) (s_conns ss) SPreRecord (s_tr ss) (s_medias ss) (r_path r) (s_stream ss)
-                           (Some n) (s_tcpconn ss) (s_writer ss) (s_timer ss), 200, RNone)
-      else Some (s, ss, 404, RNone)
+                           (Some n) (s_tcpconn ss) (s_writer ss) (s_timer ss), st200, RNone)
+      else Some (s, ss, st404, RNone)
   end.
 
 Definition sess_play (g : cfg) (s : server) (c : conn) (ss : session) (r : req) : sres :=
   match s_state ss with
   | SPrePlay | SPlay =>
-      if sstate_eqb (s_state ss) SPrePlay && negb (r_path r =? s_path ss) then Some (s, ss, 400, RErr) else
+      if sstate_eqb (s_state ss) SPrePlay && negb (r_path r =? s_path ss) then Some (s, ss, st400, RErr) else
       match s_tr ss with
       | None => None                                                       (* ss.setuppedTransport.Protocol *)
       | Some (p, _) =>
@@ -554,13 +563,13 @@ Definition sess_play (g : cfg) (s : server) (c : conn) (ss : session) (r : req) 
               if negb (s_stream ss) then None else                         (* ss.setuppedStream.readerSetActive *)
               match reader_set_active s1 ss1 with
               | None => None
-              | Some s2 => Some (s2, ss1, 200, match p with SPTCP => RSwitch true | _ => RNone end)
+              | Some s2 => Some (s2, ss1, st200, match p with SPTCP => RSwitch true | _ => RNone end)
               end
-            else Some (s, ss_with_writer ss w, 200, RNone)
+            else Some (s, ss_with_writer ss w, st200, RNone)
           else
-            Some (s, ss_with_writer ss (if create then false else w), 404, RNone)   (* destroyWriter *)
+            Some (s, ss_with_writer ss (if create then false else w), st404, RNone)   (* destroyWriter *)
       end
-  | _ => Some (s, ss, 400, RErr)
+  | _ => Some (s, ss, st400, RErr)
   end.
 
 Definition sess_record (g : cfg) (s : server) (c : conn) (ss : session) (r : req) : sres :=
@@ -569,8 +578,8 @@ Definition sess_record (g : cfg) (s : server) (c : conn) (ss : session) (r : req
       match s_announced ss with
       | None => None                                                       (* ss.announcedDesc.Medias *)
       | Some n =>
-          if negb (nlen (s_medias ss) =? n) then Some (s, ss, 400, RErr) else      (* NotAllAnnouncedMediasSetup *)
-          if negb (r_path r =? s_path ss) then Some (s, ss, 400, RErr) else         (* PathHasChanged *)
+          if negb (nlen (s_medias ss) =? n) then Some (s, ss, st400, RErr) else      (* NotAllAnnouncedMediasSetup *)
+          if negb (r_path r =? s_path ss) then Some (s, ss, st400, RErr) else         (* PathHasChanged *)
           if negb (h_record g) then None else
           if r_verdict r then
             match s_tr ss with
@@ -581,28 +590,28 @@ Definition sess_record (g : cfg) (s : server) (c : conn) (ss : session) (r : req
                     if negb (r_udp_write_ok r)
                     then (* sm.start() failed: state is RECORD, the writer exists, the timer is not armed *)
                       Some (s, mkSess (s_id ss) (s_ip ss) (s_conns ss) SRecord (s_tr ss) (s_medias ss) (s_path ss)
-                                      (s_stream ss) (s_announced ss) (s_tcpconn ss) true (s_timer ss), 400, RErr)
+                                      (s_stream ss) (s_announced ss) (s_tcpconn ss) true (s_timer ss), st400, RErr)
                     else
                       let '(a, b) := start_record (s_ip ss) (s_id ss) (s_medias ss) (v_rtp s) (v_rtcp s) in
                       Some (mkSrv (v_conns s) (v_sess s) (v_readers s) (v_active s) (v_mcount s) (v_mwriters s) a b (v_next s),
                             mkSess (s_id ss) (s_ip ss) (s_conns ss) SRecord (s_tr ss) (s_medias ss) (s_path ss)
-                                   (s_stream ss) (s_announced ss) (s_tcpconn ss) true true, 200, RNone)
+                                   (s_stream ss) (s_announced ss) (s_tcpconn ss) true true, st200, RNone)
                 | _ =>
                     Some (s, mkSess (s_id ss) (s_ip ss) (s_conns ss) SRecord (s_tr ss) (s_medias ss) (s_path ss)
-                                    (s_stream ss) (s_announced ss) (Some (c_id c)) true (s_timer ss), 200, RSwitch true)
+                                    (s_stream ss) (s_announced ss) (Some (c_id c)) true (s_timer ss), st200, RSwitch true)
                 end
             end
-          else Some (s, ss_with_writer ss false, 404, RNone)               (* createWriter; destroyWriter *)
+          else Some (s, ss_with_writer ss false, st404, RNone)               (* createWriter; destroyWriter *)
       end
-  | _ => Some (s, ss, 400, RErr)
+  | _ => Some (s, ss, st400, RErr)
   end.
 
 Definition sess_pause (g : cfg) (s : server) (ss : session) (r : req) : sres :=
   match s_state ss with
-  | SInitial => Some (s, ss, 400, RErr)
+  | SInitial => Some (s, ss, st400, RErr)
   | _ =>
       if negb (h_pause g) then None else
-      if negb (r_verdict r) then Some (s, ss, 404, RNone) else
+      if negb (r_verdict r) then Some (s, ss, st404, RNone) else
       match s_state ss with
       | SPlay | SRecord =>
           match s_tr ss with
@@ -626,11 +635,11 @@ Definition sess_pause (g : cfg) (s : server) (ss : session) (r : req) : sres :=
                       Some (s2, mkSess (s_id ss) (s_ip ss) (s_conns ss) st' (s_tr ss) (s_medias ss) (s_path ss)
                                        (s_stream ss) (s_announced ss) (if tcp then None else s_tcpconn ss) w
                                        (if tcp then s_timer ss else false),
-                            200, if tcp then RSwitch false else RNone)
+                            st200, if tcp then RSwitch false else RNone)
                   end
               end
           end
-      | _ => Some (s, ss, 200, RNone)
+      | _ => Some (s, ss, st200, RNone)
       end
   end.
 
@@ -639,32 +648,32 @@ Definition sess_teardown (s : server) (ss : session) : sres :=
   | SPlay | SRecord =>
       match s_tr ss with
       | None => None
-      | Some (SPTCP, _) => Some (s, ss, 200, RSwitch false)
-      | Some _ => Some (s, ss, 200, RNone)
+      | Some (SPTCP, _) => Some (s, ss, st200, RSwitch false)
+      | Some _ => Some (s, ss, st200, RNone)
       end
-  | _ => Some (s, ss, 200, RNone)
+  | _ => Some (s, ss, st200, RNone)
   end.
 
 (* ServerSession.handleRequestInner *)
 Definition sess_inner (g : cfg) (s : server) (c : conn) (ss : session) (r : req) : sres :=
   if match s_tcpconn ss with Some t => negb (t =? c_id c) | None => false end
-  then Some (s, ss, 400, RErr)                                             (* SessionLinkedToOtherConn *)
+  then Some (s, ss, st400, RErr)                                             (* SessionLinkedToOtherConn *)
   else
   if match r_method r with
      | MAnnounce | MPause | MGetParam | MSetParam | MPlay | MRecord | MSetup => negb (r_url r)
      | _ => false
      end then None else                                                    (* getPathAndQuery(req.URL) *)
   match r_method r with
-  | MOptions => Some (s, ss, 200, RNone)
+  | MOptions => Some (s, ss, st200, RNone)
   | MAnnounce => sess_announce g s ss r
   | MSetup => sess_setup g s c ss r
   | MPlay => sess_play g s c ss r
   | MRecord => sess_record g s c ss r
   | MPause => sess_pause g s ss r
   | MTeardown => sess_teardown s ss
-  | MGetParam => Some (s, ss, 200, RNone)
-  | MSetParam => if h_setparam g then Some (s, ss, 200, RNone) else Some (s, ss, 501, RNone)
-  | _ => Some (s, ss, 501, RNone)
+  | MGetParam => Some (s, ss, st200, RNone)
+  | MSetParam => if h_setparam g then Some (s, ss, st200, RNone) else Some (s, ss, st501, RNone)
+  | _ => Some (s, ss, st501, RNone)
   end.
 
 (* what a request step reports: the response, the error beside it and the session the connection is
@@ -699,7 +708,7 @@ Definition in_session (g : cfg) (s : server) (c : conn) (r : req) (create : bool
   | None =>
       match (match r_sess r with Some id => find_sess id (v_sess s) | None => None end) with
       | Some ss =>
-          if negb (c_ip c =? s_ip ss) then Some (s, 400, RErr, None, None)  (* CannotUseSessionCreatedByOtherIP *)
+          if negb (c_ip c =? s_ip ss) then Some (s, st400, RErr, None, None)  (* CannotUseSessionCreatedByOtherIP *)
           else sess_request g s c ss r
       | None =>
           if create then
@@ -707,36 +716,36 @@ Definition in_session (g : cfg) (s : server) (c : conn) (r : req) (create : bool
             let s1 := mkSrv (v_conns s) (ss :: v_sess s) (v_readers s) (v_active s) (v_mcount s) (v_mwriters s)
                             (v_rtp s) (v_rtcp s) (v_next s + 1) in
             sess_request g s1 c ss r
-          else Some (s, 454, RErr, None, None)                              (* StatusSessionNotFound *)
+          else Some (s, st454, RErr, None, None)                              (* StatusSessionNotFound *)
       end
   | Some sid =>
       if match r_sess r with Some id => negb (id =? sid) | None => false end
-      then Some (s, 400, RErr, Some sid, None)                              (* LinkedToOtherSession *)
+      then Some (s, st400, RErr, Some sid, None)                              (* LinkedToOtherSession *)
       else
         match find_sess sid (v_sess s) with
         | Some ss => sess_request g s c ss r
-        | None => Some (s, 400, RErr, Some sid, None)                       (* session terminated *)
+        | None => Some (s, st400, RErr, Some sid, None)                       (* session terminated *)
         end
   end.
 
 (* ServerConn.handleRequestInner *)
 Definition conn_request (g : cfg) (s : server) (c : conn) (r : req) : cres :=
-  if negb (r_cseq r) then Some (s, 400, RErr, c_sess c, None) else
-  if match r_method r with MOptions => false | _ => negb (r_url r) end then Some (s, 400, RErr, c_sess c, None) else
+  if negb (r_cseq r) then Some (s, st400, RErr, c_sess c, None) else
+  if match r_method r with MOptions => false | _ => negb (r_url r) end then Some (s, st400, RErr, c_sess c, None) else
   let has_sess := match r_sess r with Some _ => true | None => false end in
   let plain st := Some (s, st, RNone, c_sess c, None) in
   match r_method r with
-  | MOptions => if has_sess then in_session g s c r false else plain 200
-  | MDescribe => if h_describe g then plain (if r_verdict r then 200 else 404) else plain 501
-  | MAnnounce => if h_announce g then in_session g s c r true else plain 501
-  | MSetup => if h_setup g then in_session g s c r true else plain 501
-  | MPlay => if has_sess && h_play g then in_session g s c r false else plain 501
-  | MRecord => if has_sess && h_record g then in_session g s c r false else plain 501
-  | MPause => if has_sess && h_pause g then in_session g s c r false else plain 501
-  | MTeardown => if has_sess then in_session g s c r false else plain 501
-  | MGetParam => if has_sess then in_session g s c r false else if h_getparam g then plain 200 else plain 501
-  | MSetParam => if has_sess then in_session g s c r false else if h_setparam g then plain 200 else plain 501
-  | MOther => plain 501
+  | MOptions => if has_sess then in_session g s c r false else plain st200
+  | MDescribe => if h_describe g then plain (if r_verdict r then st200 else st404) else plain st501
+  | MAnnounce => if h_announce g then in_session g s c r true else plain st501
+  | MSetup => if h_setup g then in_session g s c r true else plain st501
+  | MPlay => if has_sess && h_play g then in_session g s c r false else plain st501
+  | MRecord => if has_sess && h_record g then in_session g s c r false else plain st501
+  | MPause => if has_sess && h_pause g then in_session g s c r false else plain st501
+  | MTeardown => if has_sess then in_session g s c r false else plain st501
+  | MGetParam => if has_sess then in_session g s c r false else if h_getparam g then plain st200 else plain st501
+  | MSetParam => if has_sess then in_session g s c r false else if h_setparam g then plain st200 else plain st501
+  | MOther => plain st501
   end.
 
 (* one event on one connection: handleRequestOuter writes exactly one response; a plain error ends
